@@ -180,9 +180,12 @@ fn run_context(files: Vec<(String, String)>, fillers: usize, order: Vec<usize>, 
                         continue;
                     }
                     let errs = analyzer.analyze_pass2(&p.veryl, &mut ctx, Some(&mut ir));
-                    st.pass2.extend(errs.iter().map(|e| format!("{}: {e}", files[*i].0)));
+                    // attributed to the file the diagnostic points into (an error inside ModB may be
+                    // found while elaborating an instance of it from another file, and is reported once)
+                    st.pass2.extend(errs.iter().map(|e| format!("{}: {e}", where_(e))));
                 }
                 st.pass2.sort();
+                st.pass2.dedup();
                 for (i, p) in &parsed {
                     if !parsed_only.is_empty() && !parsed_only.contains(i) {
                         continue;
